@@ -528,7 +528,7 @@ fn run_op(w: &mut World, f: &[&str]) -> St {
             let s = idx!(f[1]);
             let (v, k, act) = if f[0] == "unwrapOrCloneH" { (0u32, idx!(f[2]), f[3]) } else { (match f[2].parse() { Ok(x) => x, Err(_) => bad!() }, idx!(f[3]), f[4]) };
             match (&w.slots[s], f[0]) { (A(_), _) | (O(_), "makeMutH") => {} _ => bad!() }
-            if k == s || w.is_empty(k) || !matches!(act, "drop" | "cnt" | "getmut") { bad!(); }
+            if k == s || w.is_empty(k) || !matches!(act, "drop" | "droppanic" | "cnt" | "getmut") { bad!(); }
             if !matches!(w.slots[k], A(_) | O(_) | U(_)) { bad!(); }
             if act == "getmut" && !matches!(w.slots[k], A(_)) { bad!(); }
             let wp: *mut World = w;
@@ -538,7 +538,7 @@ fn run_op(w: &mut World, f: &[&str]) -> St {
             set_clone_hook(Some(Box::new(move || unsafe {
                 let w2 = &mut *wp;
                 let r = match act_s.as_str() {
-                    "drop" => { let h = w2.take(k); take_back_and_drop(h); "dropped".to_string() }
+                    "drop" | "droppanic" => { let h = w2.take(k); take_back_and_drop(h); "dropped".to_string() }
                     "cnt" => match &w2.slots[k] {
                         A(a) => format!("cnt:{}", cnts(&[Arc::count(a), Arc::strong_count(a)])),
                         O(o) => format!("cnt:{}", cnts(&[OffsetArc::strong_count(o)])),
@@ -551,6 +551,8 @@ fn run_op(w: &mut World, f: &[&str]) -> St {
                 *res2.borrow_mut() = r;
             })));
             let mut val = String::new();
+            // `droppanic`: the hook drops the other handle, then `T::clone` itself panics (the hook runs first)
+            if act == "droppanic" { clone_panic_at(0); }
             let r = catch_unwind(AssertUnwindSafe(|| unsafe {
                 let w3 = &mut *wp;
                 if f[0] == "unwrapOrCloneH" {
@@ -564,6 +566,7 @@ fn run_op(w: &mut World, f: &[&str]) -> St {
                 }
             }));
             set_clone_hook(None);
+            clone_panic_at(-1);
             if let Err(e) = r { std::panic::resume_unwind(e); }
             let h = res.borrow().clone();
             St::Ok(format!("{}hook={}", val, h))
